@@ -134,6 +134,12 @@ Proof.
     destruct (phase_of (set_boot C a KDead) p); try exact T0. destruct (Nat.eqb a a0); [|exact T0].
     pose proof (boot_next_core (set_boot C a KDead) p rest) as Y. destruct (boot_next (set_boot C a KDead) p rest). cbn [fst] in *.
     eapply TInvC_same_core; [exact T0 | exact Y].
+  - (* EResend *)
+    destruct (c_clients C) as [cl|]; [|exact T].
+    destruct (nth_error (c_direct C) d) as [[i h0]|]; [|exact T].
+    destruct (make_req C i _ expect mint _) as [[C3 r] o3] eqn:M.
+    pose proof (make_req_wf _ _ _ _ _ _ _ _ _ _ T M) as T3.
+    destruct r; cbn [fst]; [exact T3 | |]; (eapply TInvC_same_core; [exact T3 | score]).
 Qed.
 
 Theorem run_wf : forall evs C, TInvC [] C -> TInvC [] (fst (run C evs)).
